@@ -343,6 +343,7 @@ fn check_kernel(case: &KernelCase, ctx: &mut Ctx) -> Result<(), Fail> {
 pub fn property() -> Property {
     Property {
         id: "C10",
+        quick_mult: 48,
         rule: "two-class sets of 4..50 (quick) / 80 (thorough) rows, 1..5 features, class means 0.3 / 1.5 / 4 noise widths apart, labels {-1,1} or the pairs (0,1), (2,7.5), (-3,-1); C in 1e-1..1e2, epoch 1..4, tol 1e-4..1e-2; linear, RBF (gamma 1e-2..10), polynomial (degree 1..3, coef0 >= 0) and sigmoid kernels; the visiting order of every fit comes from a generated 64-bit schedule seed (hook). svc_orders: 4..5 rows fitted under 60 (quick) / 400 (thorough) different seeds. SVR: 4..40 / 80 pairwise distinct rows, eps 0..0.5, PSD kernels only. Kernels: Gram matrices of 2..14 points. non-trivial = >= 3 support vectors with at least one at the bound and one strictly inside (SVC / SVR), >= 3 points (kernels); distinct = distinct serialised case",
         assumptions: vec![
             "the classifier's random visiting order is replaced by a seeded StdRng under cfg(smartcore_verif); with the hook off it is thread_rng".into(),
